@@ -7,7 +7,7 @@
    bytes inside a row that are themselves control sequences (user decorators may emit
    colours; the harness's parser strips them) and line wrapping (excluded by C07/C09's
    width bounds). *)
-From MPB Require Import Base BaseProofs BarState Container ContainerProofs ContainerOut Term GenChecks Vt VtProofs.
+From MPB Require Import Base BaseProofs BarState Container ContainerProofs ContainerOut Term GenTerm Vt VtProofs.
 From MPB.gen Require Import GenApi.
 
 (* every frame replaces exactly the live rows of the frame before it: what is above them
